@@ -29,6 +29,9 @@ def _none_deref(task, f):
 def _marked_section(task, f):
     return b"<!" in task["data"] and "expected" in f["msg"]
 
+def _br_styled(task, f):
+    return re.search(rb"<br\b[^>]*\s[\w:.-]+\s*=|<br\b[^>]*>\s*<set\b", task["data"]) is not None
+
 def _empty_text(task, f):
     try: return R.decode_text(task["data"]) == ""
     except Exception: return False
@@ -51,6 +54,7 @@ FINDINGS = [
     ("imsc-tt-extent-overflow", r"^OverflowError\|imsc/attributes\.py:ExtentAttribute\.extract<-imsc/elements\.py:TTElement\.from_xml<-", r"^read$", None),
     ("imsc-content-inside-set", r"^TypeError\|model\.py:ContentElement\.set_space<-imsc/elements\.py:ContentElement\.ParsingContext\.process_space_attribute<-", r"^read$", None),
     ("srt-markup-declaration", r"^AssertionError\|srt/reader\.py:to_model$", r"^read$", _marked_section),
+    ("isd-style-on-br", r"^(ValueError\|isd\.py:_compute_length<-isd\.py:StyleProcessors\.\w+\.compute<-|AttributeError\|isd\.py:StyleProcessors\.Padding\.compute<-)isd\.py:ISD\._compute_styles<-", r".*", _br_styled),
     ("imsc-zero-rate", r"^ZeroDivisionError\|(imsc/utils\.py:parse_time_expression<-)?imsc/attributes\.py:\w+\.extract<-", r"^read$", None),
     ("stl-bad-tcp", r"^AttributeError\|stl/datafile\.py:DataFile\.__init__<-", r"^read$", None),
     ("stl-bad-mnr", r"^AttributeError\|stl/datafile\.py:DataFile\.get_max_row_count<-stl/datafile\.py:DataFile\.process_tti_block<-", r"^read$", None),
@@ -99,10 +103,10 @@ def window(rng, fmt, data, max_bytes=1500):
     k = rng.randrange(1, len(blocks)); n = rng.randrange(1, 6)
     return sep.join(blocks[:1] + blocks[k:k + n]) + sep
 
-def make_tasks(rng, n_per_reader, corp, depths):
+def make_tasks(rng, n_per_reader, corp_files, depths, corp):
     tasks = []
     for fmt in G.GENERATORS:
-        for name, data in corp[fmt]:
+        for name, data in corp_files[fmt]:
             tasks.append(dict(fmt=fmt, kind="corpus", stream="corpus", data=data if len(data) <= 4000 else window(rng, fmt, data, 4000)))
         for _ in range(n_per_reader):
             k = rng.random()
@@ -277,38 +281,53 @@ def main():
     proofs_ok = guards18.build_and_prove(run, thorough)
     run.witnesses()
 
-    # ---- search on the real code ---------------------------------------------------------------------------
+    # ---- search on the real code, in rounds (bounded memory) ------------------------------------------------
     n = int(os.environ.get("C18_N", 100000 if thorough else 2000))
     depths = [50, 100, 150, 200, 250, 300, 350, 400, 500, 700, 1000, 1200, 1500, 2000, 3000, 5000] * (3 if thorough else 1)
     corp = G.corpus(C.REPO)
-    tasks = make_tasks(run.rng, n, corp, depths)
-    run.log(f"{len(tasks)} inputs ({n} generated per reader + corpus {sum(len(v) for v in corp.values())} + depth stream {len(depths)} per reader); running the readers and the pipeline on {C.NCPU} processes")
-    results = run_pool(run, tasks)
-    run.log("pool finished")
-
-    by_i = {t["i"]: t for t in tasks}
+    per_round = 10000
+    rounds = max(1, (n + per_round - 1) // per_round)
+    run.log(f"{n} generated inputs per reader in {rounds} round(s) + corpus {sum(len(v) for v in corp.values())} files + depth stream {len(depths)} per reader; "
+            f"readers and pipeline run on {C.NCPU} processes")
     outcome_hist = collections.Counter(); kind_hist = collections.Counter(); stream_hist = collections.Counter(); fmt_hist = collections.Counter()
     known_hits = collections.Counter(); unmatched = collections.defaultdict(list); stage_fail_hist = collections.Counter()
-    cpu = collections.Counter(); docs = 0; snapshots = 0; distinct = set(); missing = 0
-    for t in tasks:
-        r = results.get(t["i"])
-        if r is None: missing += 1; continue
-        fmt_hist[t["fmt"]] += 1; stream_hist[t["stream"]] += 1
-        for k in t["kind"].split("+"): kind_hist[k] += 1
-        outcome_hist[f"{t['fmt']}:{r['outcome']}"] += 1
-        cpu[t["fmt"]] += r["dt"]
-        if r["outcome"] == "doc": docs += 1; snapshots += r["stats"].get("snapshots", 0)
-        h = hashlib.sha1(t["data"]).digest()[:8]
-        if len(t["data"]) > 0 and t["stream"] != "corpus": distinct.add((t["fmt"], h))
-        for f in R.failures(r):
-            stage_fail_hist[f"{f['stage'].split('{')[0].split('None')[0]}:{f['type']}"] += 1
-            fid = match_finding(t, f)
-            if fid is not None and any(x["id"] == fid for x in run.findings):
-                known_hits[fid] += 1
-                if fid not in run.known_printed:
-                    run.known(fid, f"{t['fmt']} input ({t['kind']}): {f['stage']} raised {f['type']} at {f['site'].split('<-')[0]}; input {show(t['data'], 120)!r}")
-            else:
-                unmatched[f"{f['type']}|{f['site']}"].append((len(t["data"]), t["i"], f))
+    cpu = collections.Counter(); docs = 0; snapshots = 0; distinct = set(); missing = 0; evals = 0
+    kept_tasks = []; kept_results = {}; spec_rows = []; samples_by_stream = {}; by_i = {}
+    keep_quota = {f: (6000 if thorough else 1500) for f in ("srt", "vtt", "scc", "stl")}
+    next_id = 0
+    for k in range(rounds):
+        n_k = min(per_round, n - k * per_round)
+        tasks = make_tasks(run.rng, n_k, corp if k == 0 else {f: [] for f in G.GENERATORS}, depths if k == 0 else [], corp)
+        for t in tasks: t["i"] += next_id
+        next_id += len(tasks)
+        results = run_pool(run, tasks)
+        for t in tasks:
+            r = results.get(t["i"])
+            if r is None: missing += 1; continue
+            evals += 1
+            fmt_hist[t["fmt"]] += 1; stream_hist[t["stream"]] += 1
+            for kk in t["kind"].split("+"): kind_hist[kk] += 1
+            outcome_hist[f"{t['fmt']}:{r['outcome']}"] += 1
+            cpu[t["fmt"]] += r["dt"]
+            if r["outcome"] == "doc": docs += 1; snapshots += r["stats"].get("snapshots", 0)
+            if len(t["data"]) > 0 and t["stream"] != "corpus": distinct.add((t["fmt"], hashlib.sha1(t["data"]).digest()[:8]))
+            if t["stream"] not in samples_by_stream: samples_by_stream[t["stream"]] = (t, r)
+            fl = R.failures(r)
+            spec_rows.append(guards18.spec_row(t["i"], r, bool(fl)))
+            for f in fl:
+                stage_fail_hist[f"{f['stage'].split('{')[0].split('None')[0]}:{f['type']}"] += 1
+                fid = match_finding(t, f)
+                if fid is not None and any(x["id"] == fid for x in run.findings):
+                    known_hits[fid] += 1
+                    if fid not in run.known_printed:
+                        run.known(fid, f"{t['fmt']} input ({t['kind']}): {f['stage']} raised {f['type']} at {f['site'].split('<-')[0]}; input {show(t['data'], 120)!r}")
+                else:
+                    unmatched[f"{f['type']}|{f['site']}"].append((len(t["data"]), t["i"], f)); by_i[t["i"]] = t
+            # inputs kept for the in-Coq comparison with the guard models
+            q = keep_quota.get(t["fmt"], 0)
+            if q > 0 and t["stream"] != "depth" and len(t["data"]) <= 6000 and run.rng.random() < (1.0 if rounds == 1 else 2.0 / rounds):
+                keep_quota[t["fmt"]] -= 1; kept_tasks.append(t); kept_results[t["i"]] = r
+        run.log(f"round {k + 1}/{rounds}: {evals} inputs so far, {sum(known_hits.values())} failures under listed findings, {len(unmatched)} unlisted signatures")
     if missing:
         run.violation(f"{missing} inputs produced no result (pool failure)", dict(kind="harness", missing=missing), False)
 
@@ -324,7 +343,7 @@ def main():
                       replay_dict(t, data, f))
 
     # ---- guard models vs code --------------------------------------------------------------------------------
-    g = guards18.correspondence(run, tasks, results, thorough)
+    g = guards18.correspondence(run, kept_tasks, kept_results, spec_rows, thorough)
 
     if (not proofs_ok or g["broken"]) and not unmatched:
         what = []
@@ -333,14 +352,12 @@ def main():
         run.violation("; ".join(what)[:1500], dict(kind="broken-tie", theorem_file="coq/Properties/C18.v", proofs_ok=proofs_ok, correspondence=g["broken"][:10],
                                                    first_disagreements=g.get("first", [])[:10]), found_input=False)
 
-    evals = len(results)
     samples = []
     for st in ("grammar", "grammar+mutation", "corpus+mutation", "random", "depth"):
-        for t in tasks:
-            if t["stream"] == st and t["i"] in results:
-                samples.append(dict(format=t["fmt"], stream=st, mutation=t["kind"], reader_config=R.READER_CFGS[t["fmt"]][t["cfg"]], input=show(t["data"], 240),
-                                    outcome=results[t["i"]]["outcome"], downstream_failures=[f"{f['stage']}:{f['type']}" for f in results[t["i"]]["fails"]][:4]))
-                break
+        if st in samples_by_stream:
+            t, r = samples_by_stream[st]
+            samples.append(dict(format=t["fmt"], stream=st, mutation=t["kind"], reader_config=R.READER_CFGS[t["fmt"]][t["cfg"]], input=show(t["data"], 240),
+                                outcome=r["outcome"], downstream_failures=[f"{f['stage']}:{f['type']}" for f in r["fails"]][:4]))
     run.cov.update(
         evaluations=evals, distinct_nontrivial=len(distinct),
         rule="one evaluation = one input file through the real reader (as tt.py opens it: XML parser / UTF-8 text with universal newlines / bytes) under one reader "
